@@ -58,7 +58,7 @@ theorem inc32_J0 (nonce : Bytes) (h : nonce.length = 12) :
 theorem gcm_ctr_spec (E : Bytes → Bytes) (hE : ∀ b, (E b).length = 16) (nonce p : Bytes) (hn : nonce.length = 12)
     (hp : divceil p.length 16 + 2 ≤ 2 ^ 32) :
     ∃ c', Modes.Model.ctrEncrypt E { counter := Model.counterBlock nonce 2, counterBytes := 0 } p =
-      .ok (c', Spec.gctr E (Spec.inc32 (nonce ++ [0, 0, 0, 1])) p) := by
+      .ok (c', Spec.gctr E (Spec.inc32 (nonce ++ [0, 0, 0, 1])) p) ∧ c'.counterBytes = 0 := by
   have hl := counterBlock_length nonce 2 hn
   have hspec := ctrEncrypt_spec E hE { counter := Model.counterBlock nonce 2, counterBytes := 0 } p hl
     (Nat.zero_le _) (Or.inl rfl)
@@ -75,6 +75,7 @@ theorem gcm_ctr_spec (E : Bytes → Bytes) (hE : ∀ b, (E b).length = 16) (nonc
     rw [ctrStream_inc_eq E 32 (by decide) _ _ hl (by rw [lowBits_counterBlock, h2]; omega)]
     rfl
   rw [e]
+  exact ⟨rfl, rfl⟩
 
 
 theorem new_spec (E : Bytes → Bytes) :
@@ -91,7 +92,7 @@ theorem len_bound (n : Nat) (h : divceil n 16 + 2 ≤ 2 ^ 32) : 8 * n < 2 ^ 64 :
 theorem aseal_spec (E : Bytes → Bytes) (hE : ∀ b, (E b).length = 16) (nonce p aad : Bytes)
     (hn : nonce.length = 12) (ha : 8 * aad.length < 2 ^ 64) (hp : divceil p.length 16 + 2 ≤ 2 ^ 32) :
     (Model.new E >>= fun o => Model.aseal E o nonce p aad) = .ok (Spec.aseal E nonce p aad) := by
-  obtain ⟨c', hc⟩ := gcm_ctr_spec E hE nonce p hn hp
+  obtain ⟨c', hc, _⟩ := gcm_ctr_spec E hE nonce p hn hp
   have hcl : 8 * (Spec.gctr E (Spec.inc32 (nonce ++ [0, 0, 0, 1])) p).length < 2 ^ 64 := by
     rw [gctr_length E hE]; exact len_bound _ hp
   simp only [new_spec, bind, Except.bind, Model.aseal]
@@ -107,7 +108,7 @@ theorem aopen_spec (E : Bytes → Bytes) (hE : ∀ b, (E b).length = 16) (nonce 
   · simp [hs]
   · have hl : (ct.take (ct.length - 16)).length = ct.length - 16 := by simp
     have hcl : 8 * (ct.take (ct.length - 16)).length < 2 ^ 64 := by rw [hl]; exact len_bound _ hp
-    obtain ⟨c', hc⟩ := gcm_ctr_spec E hE nonce (ct.take (ct.length - 16)) hn (by rw [hl]; exact hp)
+    obtain ⟨c', hc, _⟩ := gcm_ctr_spec E hE nonce (ct.take (ct.length - 16)) hn (by rw [hl]; exact hp)
     simp only [hs, if_false, bind, Except.bind, auth_spec E hE nonce _ aad ha hcl]
     by_cases ht : ct.drop (ct.length - 16) = Spec.tag E nonce aad (ct.take (ct.length - 16))
     · simp [ht, hc, pure, Except.pure]
@@ -128,5 +129,85 @@ theorem spec_aopen_aseal (E : Bytes → Bytes) (hE : ∀ b, (E b).length = 16) (
   simp only [h1, if_false, Nat.add_sub_cancel]
   rw [List.take_left' rfl, List.drop_left' rfl]
   simp [gctr_involution E hE]
+
+/-! ### histories on one object: no hidden state -/
+
+/-- what `__init__` establishes and every call preserves -/
+def InvS (E : Bytes → Bytes) (o : Model.ObjS) : Prop :=
+  o.productTable = (List.range 16).map (fun n => Gcm.E n 4 (beDecode (E (zeros 16)))) ∧ o.ctr.counterBytes = 0
+
+theorem newS_inv (E : Bytes → Bytes) : ∃ o, Model.newS E = .ok o ∧ InvS E o := by
+  refine ⟨{ productTable := (List.range 16).map (fun n => Gcm.E n 4 (beDecode (E (zeros 16)))),
+            ctr := { counter := zeros 16 ++ zeros (16 - (zeros 16).length), counterBytes := 16 - (zeros 16).length } }, ?_, ?_⟩
+  · simp only [Model.newS, new_spec, Modes.Model.ctrInit, bind, Except.bind, pure, Except.pure]
+    rw [if_neg (by simp [zeros])]
+  · exact ⟨rfl, by simp [zeros]⟩
+
+theorem ctr_with (c : Modes.Model.Ctr) (x : Bytes) (h : c.counterBytes = 0) :
+    { c with counter := x } = ({ counter := x, counterBytes := 0 } : Modes.Model.Ctr) := by
+  cases c; simp_all
+
+/-- `seal` on an object with ANY earlier history gives the SP 800-38D value: the position an earlier
+    call left in the shared CTR sub-object does not enter the result -/
+theorem asealS_spec (E : Bytes → Bytes) (hE : ∀ b, (E b).length = 16) (o : Model.ObjS) (ho : InvS E o)
+    (nonce p aad : Bytes) (hn : nonce.length = 12) (ha : 8 * aad.length < 2 ^ 64)
+    (hp : divceil p.length 16 + 2 ≤ 2 ^ 32) :
+    ∃ o', Model.asealS E o nonce p aad = .ok (o', Spec.aseal E nonce p aad) ∧ InvS E o' := by
+  obtain ⟨c', hc, hcb⟩ := gcm_ctr_spec E hE nonce p hn hp
+  have hcl : 8 * (Spec.gctr E (Spec.inc32 (nonce ++ [0, 0, 0, 1])) p).length < 2 ^ 64 := by
+    rw [gctr_length E hE]; exact len_bound _ hp
+  refine ⟨{ o with ctr := c' }, ?_, ⟨ho.1, hcb⟩⟩
+  rw [Model.asealS, if_neg (by simp [hn]), ctr_with _ _ ho.2]
+  simp only [bind, Except.bind, hc, ho.1, auth_spec E hE nonce _ aad ha hcl, pure, Except.pure, Spec.aseal]
+
+theorem aopenS_spec (E : Bytes → Bytes) (hE : ∀ b, (E b).length = 16) (o : Model.ObjS) (ho : InvS E o)
+    (nonce ct aad : Bytes) (hn : nonce.length = 12) (ha : 8 * aad.length < 2 ^ 64)
+    (hp : divceil (ct.length - 16) 16 + 2 ≤ 2 ^ 32) :
+    ∃ o', Model.aopenS E o nonce ct aad = .ok (o', Spec.aopen E nonce ct aad) ∧ InvS E o' := by
+  rw [Model.aopenS, if_neg (by simp [hn]), Spec.aopen]
+  by_cases hs : ct.length < 16
+  · exact ⟨o, by simp [hs], ho⟩
+  · have hl : (ct.take (ct.length - 16)).length = ct.length - 16 := by simp
+    have hcl : 8 * (ct.take (ct.length - 16)).length < 2 ^ 64 := by rw [hl]; exact len_bound _ hp
+    obtain ⟨c', hc, hcb⟩ := gcm_ctr_spec E hE nonce (ct.take (ct.length - 16)) hn (by rw [hl]; exact hp)
+    simp only [hs, if_false, bind, Except.bind, ho.1, auth_spec E hE nonce _ aad ha hcl, ctr_with _ _ ho.2]
+    by_cases ht : ct.drop (ct.length - 16) = Spec.tag E nonce aad (ct.take (ct.length - 16))
+    · exact ⟨{ o with ctr := c' }, by simp [ht, hc, pure, Except.pure, ho.1], ⟨ho.1, hcb⟩⟩
+    · exact ⟨o, by simp [ht, pure, Except.pure], ho⟩
+
+/-- a call the standard covers -/
+def ValidCall (c : Model.Call) : Prop :=
+  c.nonce.length = 12 ∧ 8 * c.aad.length < 2 ^ 64 ∧
+  (if c.isSeal then divceil c.data.length 16 + 2 ≤ 2 ^ 32 else divceil (c.data.length - 16) 16 + 2 ≤ 2 ^ 32)
+
+/-- what SP 800-38D says the call returns, as a function of the call's own arguments only -/
+def specCall (E : Bytes → Bytes) (c : Model.Call) : Option Bytes :=
+  if c.isSeal then some (Spec.aseal E c.nonce c.data c.aad) else Spec.aopen E c.nonce c.data c.aad
+
+theorem callS_spec (E : Bytes → Bytes) (hE : ∀ b, (E b).length = 16) (o : Model.ObjS) (ho : InvS E o)
+    (c : Model.Call) (hc : ValidCall c) :
+    ∃ o', Model.callS E o c = .ok (o', specCall E c) ∧ InvS E o' := by
+  obtain ⟨hn, ha, hp⟩ := hc
+  unfold Model.callS specCall
+  by_cases hs : c.isSeal
+  · simp only [hs, if_true] at hp ⊢
+    obtain ⟨o', h1, h2⟩ := asealS_spec E hE o ho c.nonce c.data c.aad hn ha hp
+    exact ⟨o', by rw [h1]; rfl, h2⟩
+  · simp only [hs, if_false, Bool.false_eq_true] at hp ⊢
+    exact aopenS_spec E hE o ho c.nonce c.data c.aad hn ha hp
+
+/-- ANY history of seal/open calls on one object returns, call by call, the standard's value of that
+    call alone: results never depend on earlier calls -/
+theorem runCalls_spec (E : Bytes → Bytes) (hE : ∀ b, (E b).length = 16) : ∀ (cs : List Model.Call) (o : Model.ObjS),
+    InvS E o → (∀ c ∈ cs, ValidCall c) →
+    ∃ o', Model.runCalls E o cs = .ok (o', cs.map (specCall E)) ∧ InvS E o' := by
+  intro cs
+  induction cs with
+  | nil => intro o ho _; exact ⟨o, rfl, ho⟩
+  | cons c cs ih =>
+    intro o ho hv
+    obtain ⟨o1, h1, hi1⟩ := callS_spec E hE o ho c (hv c List.mem_cons_self)
+    obtain ⟨o2, h2, hi2⟩ := ih o1 hi1 (fun x hx => hv x (List.mem_cons_of_mem _ hx))
+    exact ⟨o2, by simp only [Model.runCalls, h1, h2, bind, Except.bind, pure, Except.pure, List.map_cons], hi2⟩
 
 end Tls.Crypto.Gcm
